@@ -18,7 +18,7 @@ CLAIMS["C14"] = {
     "note": "Recursion depth is bounded by the guard cutting the run->execute->result->run cycle; Python's stack behaviour is modelled, not run.",
 }
 
-ARR_NOTE = "Numeric content (that a formula is the documented one) is not decided. numpy behaviour enters only through the axioms A1-A32; an operation outside the analyser's vocabulary is ANALYSIS-ERROR (exit 2)."
+ARR_NOTE = "Numeric content (that a formula is the documented one) is not decided. numpy behaviour enters only through the axioms A1-A33; an operation outside the analyser's vocabulary is ANALYSIS-ERROR (exit 2)."
 CLAIMS["C02"] = {"engine": "C-arrays", "technique": "call-graph reachability (no clean at load), effect whitelist and return-kind abstract interpretation over 36 execute bodies",
     "text": "Decides order-independence structurally: Parameter.clean is unreachable from loading and the command table is looked up by name only in ResultParameter.clean (C02.a); execute bodies have no self/global/file effects outside I/O commands (C02.b); Metadata is never read (C02.c); every Data producer returns a MaskedArray given masked inputs, so any data result can feed any data input (C02.d). Equality with the mathematical evaluation is not decided.", "note": ARR_NOTE}
 CLAIMS["C03"] = {"engine": "C-arrays", "technique": "abstract interpretation: mask-coverage (must) vs value-dependence and hidden-payload (may) sets at every return of every data command",
